@@ -4,7 +4,13 @@ CONSTANTS
   MaxReq = 99
   Urls = {"a", "b", "c"}
   DefinedChoices <- AllDefined
-  JailChoices = {FALSE}
+  JailChoices = {"no"}
+  LookChoices = {TRUE}
+  Waits = {0}
+  ShortTTL = 5
+  Timed = TRUE
+  Restricted = FALSE
+  ObjVariants = TRUE
   Statuses = {200}
   KCover = 0
   TraceFile = "traces.ndjson"
